@@ -50,6 +50,19 @@ def gen_case(rng, tier, avoid):
     params = {'configs': configs, 'torn': [[rng.random(), rng.random()] for _ in range(rng.choice([0, 1, 2]))]}
     if rng.random() < 0.3:
         params['crash'] = [rng.random(), rng.choice([None, None, rng.random()])]
+    minrows = min([(op['kwargs'].get('data') or {}).get('$arr', {}).get('shape', [rows])[0] for op in spec.ops
+                   if op.get('op') == 'add' and op.get('kind') == 'channel'] or [rows])
+    if rng.random() < 0.3 and minrows > 1:
+        rows = minrows
+        # a row window: the chunk arithmetic then works on the windowed row count (the window is part of what is written,
+        # so the reference is written with the same window)
+        a = rng.randint(0, rows - 1)
+        params['window'] = {'from_idx': a}
+        if rng.random() < 0.7:
+            params['window']['to_idx'] = rng.randint(a + 1, rows)
+        for cfg in configs:
+            n = (params['window'].get('to_idx') or rows) - a
+            cfg['ics'] = gen.pick(rng, gen.ics_choices(rng, n))
     if data:
         params['data'] = data
     params['source'] = src if not data else data['kind']
@@ -80,6 +93,8 @@ def check_case(case, ex):
         op = {'op': 'write', 'fid': fid, 'path': 'out.dlis'}
         if P.get('data'):
             op['data'] = P['data']
+        if P.get('window'):
+            op.update(P['window'])
         op.update(kw)
         return op
     bump(pr, 'source_' + str(P.get('source', 'inline')))
